@@ -189,6 +189,7 @@ def parseObs (impl : String) : Obs :=
     else if w.startsWith "srv:" then ({ ob with srv := (splitList (tailStr w 4)).map parseName }, idx + 1)
     else if w.startsWith "log:" then ({ ob with log := (splitList (tailStr w 4)).map parseLogEnt }, idx + 1)
     else if w.startsWith "stale:" then ({ ob with stale := (splitList (tailStr w 6)).map parseName }, idx + 1)
+    else if w.startsWith "closed:" then ({ ob with closed := (splitList (tailStr w 7)).map parseName }, idx + 1)
     else if idx = 0 then ({ ob with status := parseSt w }, 1)
     else if idx = 1 then ({ ob with hdr := if w == "-" then none else some (parseName w) }, 2)
     else (ob, idx + 1)) ({ status := .raw "" }, 0) |>.1
@@ -248,7 +249,7 @@ def LogEnt.render (l : LogEnt) : String := s!"{l.sess.render}/{l.who.render}/{l.
 def Obs.render (o : Obs) : String :=
   let hdr := match o.hdr with | some n => n.render | none => "-"
   let head := s!"{o.status.render} {hdr}{if o.hang then " hang" else ""}"
-  s!"{head} done:{joinOr (sortStrs (o.done.map fun c => s!"{c.1.render}={c.2}"))} map:{joinOr (o.map.map MapEnt.render)} srv:{joinOr (o.srv.map Name.render)} log:{joinOr (sortStrs (o.log.map LogEnt.render))} stale:{joinOr (o.stale.map Name.render)}"
+  s!"{head} done:{joinOr (sortStrs (o.done.map fun c => s!"{c.1.render}={c.2}"))} map:{joinOr (o.map.map MapEnt.render)} srv:{joinOr (o.srv.map Name.render)} log:{joinOr (sortStrs (o.log.map LogEnt.render))} stale:{joinOr (o.stale.map Name.render)}{if o.closed.isEmpty then "" else " closed:" ++ joinOr (sortStrs (o.closed.map Name.render))}"
 
 def Verb.text : Verb → String
   | .post => "post"
@@ -380,6 +381,7 @@ def Eph.EClause.text (m : Eph.Mode) : Eph.EClause → String
   | .rejectedReached => "C11:owner_binding: handler invoked for a rejected request"
   | .misrouted => "C11:id_addresses_one_session: message routed to another session"
   | .timerLeft => "C05+C11:closed_session_timer_never_rearmed: an idle timer is armed on an endpoint that keeps no session"
+  | .storeTold want got => s!"C05+C11:dead_after_removal: {want} temporary session(s) ended, the event store's SessionClosed was called {got} time(s)"
 
 /-- `Server.Sessions()` as the harness prints it: sorted by length, then alphabetically. -/
 def sortSrv (l : List Name) : List Name :=
@@ -420,8 +422,10 @@ def engine : Engine DState where
   init := {}
   step d toks impl :=
     match toks with
-    | "reset" :: "legacy" :: _ => ({ eph := some ({ mode := .legacy }, { mode := .legacy }) }, { model := "ok" })
-    | "reset" :: "noids" :: _ => ({ eph := some ({ mode := .noIds }, { mode := .noIds }) }, { model := "ok" })
+    | "reset" :: "legacy" :: _ :: rest =>
+      ({ eph := some ({ mode := .legacy, es := rest.head? == some "es" }, { mode := .legacy, es := rest.head? == some "es" }) }, { model := "ok" })
+    | "reset" :: "noids" :: _ :: rest =>
+      ({ eph := some ({ mode := .noIds, es := rest.head? == some "es" }, { mode := .noIds, es := rest.head? == some "es" }) }, { model := "ok" })
     | "reset" :: mode :: ms :: rest =>
       let cfg : Cfg := { stateless := mode == "stateless", timeout := ms.toNat?.getD 0,
                          publishChecks := Generated.Sessions.publishChecksClosed,
